@@ -60,10 +60,13 @@ def check(rep, an, tier):
         CC.rank_of_extents(rep, res, entry)
         R.rule_dtype(rep, res, entry)
         R.rule_iterator_reuse(rep, res, entry)
+        R.rule_no_global_state(rep, res, entry)
+        from .C15 import tolerances
+        tolerances(rep, res, entry)
         # error dispatch
-        top_raise = [e for e in res.events("raise") if len(e.path) == 1 and e.d.get("exc") == "ValueError" and "outside" in norm_text(e.node)]
-        warns = [e for e in res.events("warn") if len(e.path) == 1]
-        fits = [e for e in res.events("call") if e.d["callee"].name == "lsq_linear" and len(e.path) == 1]
+        top_raise = [e for e in res.events("raise") if R.near(e) and e.d.get("exc") == "ValueError" and "outside" in norm_text(e.node)]
+        warns = [e for e in res.events("warn") if R.near(e)]
+        fits = [e for e in res.events("call") if e.d["callee"].name == "lsq_linear" and R.near(e)]
         if cfg["error"] in ("raise", "other"):
             rep.check("R-DISPATCH", f"error='{cfg['error']}' raises for out-of-gamut targets", True if (top_raise and not fits) else (False if not top_raise else None),
                       where=res.fn.loc(), construct=f"error={cfg['error']!r}", entry=entry, config=res.config,
@@ -94,7 +97,8 @@ def check(rep, an, tier):
                               where=ev.loc, construct="lsq_linear(A, B, …) in range_of_solutions", entry=entry, config=res.config,
                               msg=f"the fallback is fitted against a {b.flat().frame} target with the baseline-free model")
         # enumeration receives LIGHT target
-        enum = [e for e in res.events("call") if len(e.path) == 1 and e.d["callee"].module.name == CC.CONVEX
+        enum = [e for e in res.events("call") if R.near(e) and e.fn.name not in ("_spaced_solutions", "_range_of_solutions")
+                and e.d["callee"].module.name == CC.CONVEX
                 and e.d["callee"].name not in ("get_P_from_A", "in_hull", "lsq_linear") and not e.d["callee"].name.startswith("transform")]
         for ev in enum:
             fn = ev.d["callee"]
